@@ -30,7 +30,7 @@ SPEC = dict(
              "last delivered one need not be the final one (C17_last_report_any_order_refuted: two changes, second goroutine "
              "first) — recorded finding, replayed statistically on the real code. Tie, on every run: the de-duplication flag, "
              "mandatory keys and read keys are regenerated from the Go AST; mdnsdrv drives the real resolver callback "
-             "(hook mdns/verif_hooks.go) with histories of length <= 40 over 4 services, 12 TXT records (7 damaged), 7 "
+             "(hook mdns/verif_hooks.go) with histories of length <= 40 over 4 services, 14 TXT records (9 damaged), 7 "
              "addresses (both byte forms of one IPv4, IPv4/IPv6 link-local, duplicates inside one call), repeated adds, "
              "removes of unknown services, and records after every event the stored SKIs, the touched entry before/after and "
              "the reported snapshot (polled, capped), at the end the full map and last report; Coq compares them with the "
@@ -54,8 +54,8 @@ SPEC = dict(
            30: "last_delivered_report_stale_when_goroutines_reorder"},
     rule="histories of 1..40 resolver-callback calls (25% 1-6, 25% 6-17, 50% 15-40; the first two cases are the fixed "
          "witnesses: one add carrying an address twice; both byte forms of one IPv4 in the first add, remove, re-add) on a "
-         "fresh real MdnsManager: each call picks one of 12 TXT records (4 services, a second different record of service 1, "
-         "7 damaged: empty, txtvers 2, register 'maybe', no ski, no id, own SKI, no path; 12% damaged; histories focused on "
+         "fresh real MdnsManager: each call picks one of 14 TXT records (4 services, a second different record of service 1, "
+         "9 damaged: empty, txtvers 2, register 'maybe', no ski, no id, own SKI, no path, no txtvers, no register; 12% damaged; histories focused on "
          "one, two or all services), 18% removes (70% of them without addresses, like avahi), 0-3 addresses out of 7 with "
          "20% repeats inside one call; name/host/port identify the call. distinct = hash of the event list; non-trivial = "
          "some call hits an already stored service (merge, repeated add or remove of a visible service).",
